@@ -379,4 +379,164 @@ def check_C13(cx):
                             "schedules executed on the real bootstrap with a gated mock factory/acceptor/executor; distinct_nontrivial = distinct Bootstrap.tla transitions replayed")
 
 
-CHECKS = {"C13": check_C13, "C19": check_C19, "C03": check_C03, "C07": check_C07}
+# ---------------------------------------------------------------- Frame / C04, C08
+def lf(w, o=0, a=0, s=0, mx=1024, eadj=0, eincl=False, real=True):
+    return {"kind": "lf", "w": w, "o": o, "a": a, "s": s, "max": mx, "eadj": eadj, "eincl": eincl, "real": real}
+
+
+def frame_cfg_go(c):
+    out = dict(c)
+    if "dl" in c:
+        out["dl"] = c["dl"]
+    return out
+
+
+FRAME_CONFIGS = [
+    lf(1, s=1), lf(1, s=0), lf(2, s=2, mx=70000), lf(2, s=0, mx=1024), lf(4, s=4, mx=70000), lf(8, s=8, mx=70000),
+    lf(2, a=-2, eincl=True, s=0, mx=70000),           # length includes the length field
+    lf(2, eadj=3, a=-3, s=2, mx=70000),               # encoder adjustment compensated by the decoder
+    lf(1, o=1, s=0, mx=400, real=False), lf(2, o=3, s=5, mx=70000, real=False), lf(2, o=1, a=2, eadj=-2, s=1, mx=2000, real=False),
+    lf(4, o=0, s=5, mx=70000, real=False),            # strip beyond the header
+    {"kind": "varint", "max": 1024}, {"kind": "varint", "max": 70000}, {"kind": "varint", "max": 127},
+    {"kind": "delim", "max": 1024, "dl": 1, "strip": True}, {"kind": "delim", "max": 1024, "dl": 2, "strip": False},
+    {"kind": "delim", "max": 70000, "dl": 2, "strip": True},
+    {"kind": "fixed", "n": 5}, {"kind": "fixed", "n": 1}, {"kind": "fixed", "n": 1024}, {"kind": "fixed", "n": 2049},
+]
+FRAME_LENS = [0, 1, 5, 126, 127, 128, 254, 255, 256, 257, 1020, 1021, 1022, 1023, 1024, 1025, 2048, 2049, 16383, 16384, 65534, 65535, 65536, 65537]
+
+
+def frame_admitted(c, p):
+    k = c["kind"]
+    if k == "lf":
+        v = p + c["eadj"] + (c["w"] if c["eincl"] else 0)
+        return c["o"] + c["w"] + p <= c["max"] and 0 <= v < (256 ** c["w"]) and v + c["a"] == p and c["s"] <= c["o"] + c["w"] + p
+    if k == "varint":
+        return p <= c["max"]
+    if k == "delim":
+        return p + c["dl"] <= c["max"]
+    return p == c["n"]
+
+
+def frame_cases(cx, n_per_cfg, lens, with_cuts=True):
+    """structured cases: per configuration, sequences of admitted (and boundary) payload lengths, every
+    interesting cut position, several fragmentations and carriers"""
+    cases = []
+    frags = ["one", "rand", "edges", "whole"]
+    carriers = ["bytes", "string", "buffer", "reader"]
+    for ci, c in enumerate(FRAME_CONFIGS):
+        adm = [p for p in lens if frame_admitted(c, p)]
+        if c["kind"] == "fixed":
+            adm = [c["n"]]
+        # payloads that do not fit the length field: the encoder must refuse, not mis-encode
+        over = [p for p in lens if c["kind"] == "lf" and c["real"] and c["w"] <= 2 and p + c["eadj"] + (c["w"] if c["eincl"] else 0) >= 256 ** c["w"]] if c["kind"] == "lf" else []
+        for j in range(n_per_cfg):
+            k = cx.rnd.randrange(1, 4)
+            ps = [adm[cx.rnd.randrange(len(adm))] for _ in range(k)] if adm else []
+            if over and j % 5 == 4:
+                ps = [over[cx.rnd.randrange(len(over))]]
+            sizes = []
+            cut = -1
+            base = {"id": "f%d-%d" % (ci, j), "cfg": c, "ps": ps, "cut": -1, "frag": frags[j % 4], "little": j % 2 == 1,
+                    "carrier": carriers[(j // 4) % 4], "seed": cx.rnd.randrange(1 << 40)}
+            cases.append(base)
+            if with_cuts and ps and j % 2 == 0:
+                # same stream cut at a random interesting position (computed by the driver from frame layout):
+                # encode sizes are known for admitted payloads
+                hl = {"lf": c.get("o", 0) + c.get("w", 0), "varint": None, "delim": 0, "fixed": 0}[c["kind"]]
+                pos = 0
+                marks = [0]
+                for p in ps:
+                    h = hl if hl is not None else (1 if p < 128 else 2 if p < 16384 else 3)
+                    size = h + p + (c["dl"] if c["kind"] == "delim" else 0)
+                    marks += [pos + 1, pos + h - 1, pos + h, pos + h + 1, pos + size - 1, pos + size]
+                    pos += size
+                marks = sorted(set(m for m in marks if 0 <= m <= pos))
+                cc = dict(base)
+                cc["id"] = base["id"] + "c"
+                cc["cut"] = marks[cx.rnd.randrange(len(marks))]
+                cases.append(cc)
+    return cases
+
+
+def frame_raw_cases(cx, n):
+    cases = []
+    hvs = [0, 1, 5, 255, 256, 1023, 1024, 1025, 65535, 65536, 1000000]
+    for ci, c in enumerate(FRAME_CONFIGS):
+        if c["kind"] not in ("lf", "varint"):
+            continue
+        for j in range(n):
+            hv = hvs[cx.rnd.randrange(len(hvs))]
+            if c["kind"] == "lf" and c["w"] <= 2:
+                hv = min(hv, 256 ** c["w"] - 1)
+            cases.append({"id": "raw%d-%d" % (ci, j), "cfg": c, "raw": True, "hv": hv, "body": [0, 1, 5, 300, 1024][cx.rnd.randrange(5)],
+                          "frag": ["one", "rand", "whole"][j % 3], "little": j % 2 == 0, "seed": cx.rnd.randrange(1 << 40), "cut": -1})
+    return cases
+
+
+def frame_consts(configs, lens, maxframes):
+    return {"Configs": Raw("{" + ", ".join(tla_rec(c) for c in configs) + "}"), "Lens": set(lens), "MaxFrames": maxframes,
+            "FixEOF": TREE.get("FixEOF", False), "FixCap": TREE.get("FixCap", False)}
+
+
+def tla_rec(c):
+    return "[" + ", ".join("%s |-> %s" % (k, tla(v)) for k, v in c.items()) + "]"
+
+
+def check_frame(cx, pid):
+    cx.module = "frame"
+    cx.build()
+    quick = cx.tier == "quick"
+    inv = {"C04": ["C04_RoundTrip", "C04_EncoderHonest"],
+           "C08": ["C08_DeliveredComplete", "C08_WithinMax", "C08_NoPhantom", "C08_BufferedBounded", "C08_Progress"]}[pid]
+    # the decoders' algorithms as transcribed in Frame.tla, exhaustively over configurations x payload
+    # length sequences x end-of-stream positions
+    lens = [0, 1, 5, 127, 128, 254, 255, 256, 1022, 1023, 1024, 1025, 2049, 65535, 65536] if quick else FRAME_LENS
+    consts = frame_consts(FRAME_CONFIGS, lens, 2)
+    res = generic_mc(cx, "MCframe", "Frame", consts, inv, spec="MCSpec", what="%s over %d codec configurations x sequences of <= 2 payloads from %d lengths x cut points" % (pid, len(FRAME_CONFIGS), len(lens)), timeout=1500)
+    cx.selftests["tlc_invariant_result"] = res["violated"]
+    spec_violation = res["violated"]
+    # the real codecs
+    cases = frame_cases(cx, 12 if quick else 80, FRAME_LENS) + frame_raw_cases(cx, 6 if quick else 40)
+    rs = run_driver(cx.driver, "frame", cases, cx.wd, tag="f")
+    cx.absorb(rs, cases)
+    tconsts = frame_consts(FRAME_CONFIGS, FRAME_LENS, 3)
+    for chunk in range(0, len(rs), 400):
+        v = validate(cx, "TF%d" % chunk, "TraceFrame", tconsts, rs[chunk:chunk + 400], [], {"op": "reset"})
+    if rs:
+        cx.samples.append({"case": {k: cases[1][k] for k in ("cfg", "ps", "cut", "frag", "carrier")}, "recorded": rs[1]["events"][:5]})
+    if pid == "C08":
+        extra = []
+        for ci, c in enumerate(FRAME_CONFIGS):
+            for body in (0, 3):
+                extra.append({"id": "eof%d-%d" % (ci, body), "cfg": c, "eofloop": True, "body": body, "seed": cx.rnd.randrange(1 << 40)})
+            extra.append({"id": "fuzz%d" % ci, "cfg": c, "fuzz": 300 if quick else 5000, "seed": cx.rnd.randrange(1 << 40)})
+        rs2 = run_driver(cx.driver, "frame", extra, cx.wd, tag="x")
+        cx.absorb(rs2, extra)
+        cx.extra_cov["eof_loop_scenarios"] = 2 * len(FRAME_CONFIGS)
+        cx.extra_cov["adversarial_streams"] = (300 if quick else 5000) * len(FRAME_CONFIGS)
+    cx.edges_walked = sum(sum(r["actions"].values()) for r in rs)
+    if spec_violation and not [f for f in cx.fails]:
+        raise Inconclusive("SPEC-MISMATCH: TLC reports %s on Frame.tla but no execution of the real codecs fails the oracle" % spec_violation)
+    # regression self-test: the transcription of the unrepaired code must still violate the property
+    if (pid == "C08" and TREE.get("FixEOF")) or (pid == "C04" and TREE.get("FixCap")):
+        c0 = dict(consts)
+        c0["FixEOF" if pid == "C08" else "FixCap"] = False
+        r0 = generic_mc(cx, "MCunfixed", "Frame", c0, inv, spec="MCSpec", what="self-test: the unrepaired %s must violate %s" % ("lazy LimitReader bodies" if pid == "C08" else "length prepender", pid))
+        cx.selftests["unfixed_spec_violates"] = r0["violated"]
+        if not r0["violated"]:
+            raise Inconclusive("self-test failed: the unrepaired Frame specification no longer violates %s" % pid)
+    cx.assume.append("byte content equality is decided by the driver's comparison; TLC sees lengths and positions")
+    cx.assume.append("4- and 8-byte length-field capacities (>= 2^31) are outside TLC's integers and cannot be allocated; not covered")
+    return finish(cx, rule="cases = (codec configuration, payload length sequence, end-of-stream position, fragmentation, carrier type, byte order) run through the "
+                            "real encoders/decoders with a fully-reading consumer; distinct_nontrivial = decoder invocations executed and compared with Frame.tla")
+
+
+def check_C04(cx):
+    return check_frame(cx, "C04")
+
+
+def check_C08(cx):
+    return check_frame(cx, "C08")
+
+
+CHECKS = {"C04": check_C04, "C08": check_C08, "C13": check_C13, "C19": check_C19, "C03": check_C03, "C07": check_C07}
